@@ -1,9 +1,13 @@
 ---------------------------- MODULE Gen_Importer ----------------------------
 EXTENDS Importer
+CONSTANT Double   \* TRUE: also every pair of (file status / removed entity) faults
 VARIABLE sc
-Init == sc \in UNION {{[world |-> wn, fault |-> flt, strict |-> s] : flt \in {x \in Faults(Worlds[wn]) : SensibleFault(Worlds[wn], x)}, s \in BOOLEAN} : wn \in DOMAIN Worlds}
+Simple(w) == {x \in Faults(w) : x.kind \in {"status", "removeEntity"}}
+Doubles(w) == UNION {{[kind |-> "double", first |-> f1, second |-> f2] : f2 \in {y \in Simple(ApplyFault(w, f1)) : y # f1}} : f1 \in Simple(w)}
+Init == sc \in UNION {{[world |-> wn, fault |-> flt, strict |-> s] : flt \in {x \in Faults(Worlds[wn]) : SensibleFault(Worlds[wn], x)} \cup (IF Double THEN Doubles(Worlds[wn]) ELSE {}), s \in BOOLEAN} : wn \in DOMAIN Worlds}
+Faulted == IF sc.fault.kind = "double" THEN ApplyFault(ApplyFault(Worlds[sc.world], sc.fault.first), sc.fault.second) ELSE ApplyFault(Worlds[sc.world], sc.fault)
 Next == UNCHANGED sc
 Spec == Init /\ [][Next]_sc
 BaseSat == Satisfiable(Worlds[sc.world])      \* every base world is resolvable (checked for each)
-Emit == EmitScenario([world |-> sc.world, fault |-> sc.fault, strict |-> sc.strict, files |-> ApplyFault(Worlds[sc.world], sc.fault), repaired |-> Worlds[sc.world]])
+Emit == EmitScenario([world |-> sc.world, fault |-> sc.fault, strict |-> sc.strict, files |-> Faulted, repaired |-> Worlds[sc.world]])
 =============================================================================
